@@ -359,4 +359,71 @@ theorem Itc.spin_succ (o : Itc) (k : Nat) : (o.spin k).eval.2 = o.spin (k + 1) :
   congr 1
   omega
 
+/-! ### frame: operations that do not involve impl `i` -/
+
+/-- the operation neither evaluates/polls a tree containing impl `i`, nor terminates it, nor hands it
+to the cost-convergence callback -/
+def NoTouch {α} (i : Nat) : Op α → Prop
+  | .eval c => i ∉ c.impls
+  | .poll c => i ∉ c.impls
+  | .terminate c => c.impl ≠ i
+  | .newCostConv j _ _ => j ≠ i
+  | _ => True
+
+def CbOk {α} (i : Nat) (w : World α) : Prop := ∀ cc, w.cb = some cc → cc.impl ≠ i
+
+theorem step_frame {α} [PNum α] (env : Env) (w : World α) (op : Op α) (i : Nat) (hn : NoTouch i op) (hcb : CbOk i w) :
+    (w.step env op).st.term i = w.st.term i ∧ (w.step env op).st.cnt i = w.st.cnt i ∧ CbOk i (w.step env op) := by
+  cases op with
+  | eval c => exact ⟨by simp only [World.step]; rw [eval_term], eval_cnt_frame env i c _ hn, hcb⟩
+  | terminate c =>
+    have hne : i ≠ c.impl := fun h => hn h.symm
+    exact ⟨by simp [World.step, terminate, upd, hne], rfl, hcb⟩
+  | poll c => exact ⟨by simp only [World.step]; rw [poll_term], poll_cnt_frame env i c _ hn, hcb⟩
+  | addSoln a => exact ⟨rfl, rfl, hcb⟩
+  | clearSolns => exact ⟨rfl, rfl, hcb⟩
+  | newCostConv j win eps =>
+    refine ⟨rfl, rfl, ?_⟩
+    intro cc hcc
+    simp only [World.step, newCostConv, Option.some.injEq] at hcc
+    rw [← hcc]; exact hn
+  | cost c =>
+    simp only [World.step, reportCost]
+    cases hcbv : w.cb with
+    | none => exact ⟨rfl, rfl, by intro cc hcc; rw [hcbv] at hcc; exact absurd hcc (by simp)⟩
+    | some cc =>
+      have hne : i ≠ cc.impl := fun h => hcb cc hcbv h.symm
+      dsimp only
+      refine ⟨?_, ?_, ?_⟩
+      · split
+        · simp [upd, hne]
+        · rfl
+      · split <;> rfl
+      · intro cc' hcc'
+        simp only [Option.some.injEq] at hcc'
+        rw [← hcc']
+        simp only [CC.step]
+        exact fun h => hne h.symm
+
+theorem run_frame {α} [PNum α] (env : Env) (i : Nat) (ops : List (Op α)) : ∀ (w : World α),
+    (∀ op ∈ ops, NoTouch i op) → CbOk i w →
+    (w.run env ops).st.term i = w.st.term i ∧ (w.run env ops).st.cnt i = w.st.cnt i ∧ CbOk i (w.run env ops) := by
+  induction ops with
+  | nil => intro w _ hcb; exact ⟨rfl, rfl, hcb⟩
+  | cons op rest ih =>
+    intro w hall hcb
+    obtain ⟨h1, h2, h3⟩ := step_frame env w op i (hall op (List.mem_cons_self ..)) hcb
+    obtain ⟨g1, g2, g3⟩ := ih (w.step env op) (fun o ho => hall o (List.mem_cons_of_mem _ ho)) h3
+    simp only [World.run, List.foldl_cons]
+    exact ⟨g1.trans h1, g2.trans h2, g3⟩
+
+/-- evaluations of `c`, each preceded by an arbitrary batch of other operations -/
+def interleave {α} [PNum α] (env : Env) (c : Cond) : List (List (Op α)) → World α → List Bool × World α
+  | [], w => ([], w)
+  | seg :: rest, w =>
+    let w1 := w.run env seg
+    let r := eval env c w1.st
+    let rs := interleave env c rest { w1 with st := r.2 }
+    (r.1 :: rs.1, rs.2)
+
 end OmplModel.Ptc
